@@ -9,7 +9,7 @@
 (* to when it says TRUE) and writes the headers and some silent audio      *)
 (* packets as <<value, bits>> lists.                                       *)
 (***************************************************************************)
-EXTENDS Setup, TLC, Json
+EXTENDS AudioPacket, TLC, Json
 CONSTANTS Family        \* "sizes" | "shapes" | "mutations"
 VARIABLES c, done
 vars == <<c, done>>
@@ -91,17 +91,41 @@ Mutations ==
     [name |-> "mode-windowtype-1", s |-> [B0 EXCEPT !.modes[1].wt = 1]],
     [name |-> "mode-transformtype-1", s |-> [B0 EXCEPT !.modes[1].tt = 1]] }
 
+VarBook(dim, mt) == [dim |-> dim, entries |-> 4, ordered |-> 1, sparse |-> 0, lens |-> <<1, 2, 3, 3>>, maptype |-> mt, qmin |-> PackedInt(0), qdelta |-> PackedInt(1), qbits |-> 2, qseq |-> 0,
+                     quant |-> IF mt = 1 THEN [i \in 1..QuantVals1(4, dim) |-> i % 3] ELSE <<>>]
+\* residue decode: variable-length classification book, two classes with different cascades (class 1: stage 0, class 2: stage 1), fixed- and variable-length value books
+ResSetup(ch, e0, e1, rt, psize, coupled) ==
+  [ch |-> ch, rate |-> 44100, e0 |-> e0, e1 |-> e1,
+   books |-> << Full(2, 1), VarBook(2, 0), Lattice(2, 2), VarBook(2, 1), Full(1, 1) >>,
+   floors |-> << [type |-> 1, parts |-> <<0, 1>>, cdim |-> <<2, 1>>, csubs |-> <<0, 1>>, cbook |-> <<0, 4>>, csub |-> << <<0>>, <<1, -1>> >>, mult |-> 2, rb |-> 5, posts |-> <<16, 8, 24>>] >>,
+   residues |-> << [type |-> rt, begin |-> 0, end |-> Pow2(e1), psize |-> psize, nclass |-> 2, gbook |-> 1, cascade |-> <<1, 2>>, rbooks |-> <<2, 3>>] >>,
+   maps |-> << [submaps |-> 1, coupling |-> IF coupled THEN << <<0, 1>> >> ELSE <<>>, mux |-> <<>>, sfloor |-> <<0>>, sres |-> <<0>>] >>, modes |-> Modes]
+ExplicitVals == [Full(2, 2) EXCEPT !.maptype = 2, !.qmin = PackedInt(0), !.qdelta = PackedInt(1), !.qbits = 3, !.quant = <<0, 1, 1, 3, 2, 2, 3, 5>>]
+\* sequence mode: each component is the running sum of the stored values, restarting at every entry; chosen so that the sums equal ExplicitVals
+SequenceVals == [ExplicitVals EXCEPT !.qseq = 1, !.quant = <<0, 1, 1, 2, 2, 0, 3, 2>>]
+\* modes that do not map identically onto the mappings: mode 0 -> mapping 1, mode 1 -> mapping 0, the two mappings use different residues
+Crossed(s) == [s EXCEPT !.residues = s.residues \o << [s.residues[1] EXCEPT !.cascade = <<0, 1>>, !.rbooks = <<3>>] >>,
+                        !.maps = << s.maps[1], [s.maps[1] EXCEPT !.sres = <<1>>] >>,
+                        !.modes = << [bf |-> 0, wt |-> 0, tt |-> 0, map |-> 1], [bf |-> 1, wt |-> 0, tt |-> 0, map |-> 0] >>]
+ResCases == { [name |-> "residue-explicit-values", seq |-> TRUE, s |-> [ResSetup(ch, 6, 7, rt, 8, FALSE) EXCEPT !.books[3] = ExplicitVals]] : ch \in {1, 2}, rt \in {0, 1, 2} } \cup
+            { [name |-> "residue-crossed-modes", seq |-> FALSE, s |-> Crossed(ResSetup(ch, 6, 7, rt, 4, FALSE))] : ch \in {1, 2}, rt \in {0, 1, 2} } \cup
+            { [name |-> "residue", seq |-> FALSE, s |-> ResSetup(ch, 6, e1, rt, ps, cp)] : ch \in {1, 2}, e1 \in {6, 7}, rt \in {0, 1, 2}, ps \in {4, 8}, cp \in {FALSE, TRUE} }
 Sizes == { [name |-> "sizes", s |-> Base(ch, e0, e1, rt)] : ch \in {1, 2}, e0 \in 6..13, e1 \in 6..13, rt \in {1} }
-Cases == CASE Family = "sizes" -> { x \in Sizes : x.s.e0 <= x.s.e1 } [] Family = "shapes" -> Shapes [] OTHER -> Mutations
+Cases == CASE Family = "sizes" -> { x \in Sizes : x.s.e0 <= x.s.e1 } [] Family = "shapes" -> Shapes [] Family = "residue" -> { x \in ResCases : x.s.ch >= 2 \/ x.s.maps[1].coupling = <<>> } [] OTHER -> Mutations
 
 Init == c \in Cases /\ done = FALSE
 Next == ~done /\ done' = TRUE /\ UNCHANGED c
 Spec == Init /\ [][Next]_vars
 
-Audio(s) == IF Len(s.modes) >= 2 /\ s.ch >= 1 /\ s.ch <= 255 /\ \A i \in 1..Len(s.modes) : s.modes[i].map + 1 <= Len(s.maps) /\ \A m \in 1..Len(s.maps) : Len(s.maps[m].sfloor) >= 1 /\ \A j \in 1..Len(s.maps[m].sfloor) : s.maps[m].sfloor[j] + 1 <= Len(s.floors)
+FullAudio(s) == << [W |-> 0, ns |-> 1, f |-> FullPacket(s, 0, 0, 0, 1)], [W |-> 1, ns |-> 1, f |-> FullPacket(s, 1, 0, 1, 2)], [W |-> 1, ns |-> 1, f |-> FullPacket(s, 1, 1, 0, 3)],
+                 [W |-> 0, ns |-> 1, f |-> FullPacket(s, 0, 0, 0, 4)], [W |-> 0, ns |-> 1, f |-> FullPacket(s, 0, 0, 0, 5)] >>
+\* the same classes and the same residue values, but one classification word per partition instead of one per pair: an identical spectrum through a different layout
+Twin(s) == IF Family = "residue" /\ c.seq THEN [s EXCEPT !.books[3] = SequenceVals] ELSE [s EXCEPT !.residues[1].gbook = 4]
+Audio(s) == IF Family = "residue" THEN FullAudio(s) ELSE IF Len(s.modes) >= 2 /\ s.ch >= 1 /\ s.ch <= 255 /\ \A i \in 1..Len(s.modes) : s.modes[i].map + 1 <= Len(s.maps) /\ \A m \in 1..Len(s.maps) : Len(s.maps[m].sfloor) >= 1 /\ \A j \in 1..Len(s.maps[m].sfloor) : s.maps[m].sfloor[j] + 1 <= Len(s.floors)
             THEN << [W |-> 0, f |-> SilentPacket(s, 0, 0, 0)], [W |-> 1, f |-> SilentPacket(s, 1, 0, 1)], [W |-> 1, f |-> SilentPacket(s, 1, 1, 0)], [W |-> 0, f |-> SilentPacket(s, 0, 0, 0)], [W |-> 0, f |-> SilentPacket(s, 0, 0, 0)] >>
             ELSE <<>>
 \* the generator's own sanity: the two well-formed families are well-formed, every mutation of the third is exactly one field away and most are ill-formed
-FamiliesOK == (Family \in {"sizes", "shapes"} => SetupOK(c.s))
-Export == done => PrintT("CASE " \o ToJson([name |-> c.name, ok |-> SetupOK(c.s), idok |-> IdOK(c.s), ch |-> c.s.ch, e0 |-> c.s.e0, e1 |-> c.s.e1, id |-> IdFields(c.s), setup |-> SetupFields(c.s), audio |-> Audio(c.s)]))
+FamiliesOK == (Family \in {"sizes", "shapes", "residue"} => SetupOK(c.s))
+Export == done => PrintT("CASE " \o ToJson([name |-> c.name, ok |-> SetupOK(c.s), idok |-> IdOK(c.s), ch |-> c.s.ch, e0 |-> c.s.e0, e1 |-> c.s.e1, id |-> IdFields(c.s), setup |-> SetupFields(c.s), audio |-> Audio(c.s),
+                                              twin |-> IF Family = "residue" THEN [ok |-> SetupOK(Twin(c.s)), setup |-> SetupFields(Twin(c.s)), audio |-> FullAudio(Twin(c.s))] ELSE [ok |-> FALSE, setup |-> <<>>, audio |-> <<>>]]))
 =============================================================================
